@@ -68,6 +68,29 @@ def run():
                 # second cycle: repeated create/use/destroy does not grow the process
                 text += pre + call + post
             scens.append({'text': '\n'.join(text) + '\n', 'case': (op, jit, large, k, var), 'ks': 5 if longkey else 0})
+    # with an (emulated) huge-page pool: large-page requests are granted while the pool lasts. (1) every large-page case again with
+    # a pool that grants everything; (2) a pool too small for a cache but large enough for a scratchpad: several refused cache
+    # allocations in a row must not change what a later request that fits gets
+    for (op, jit, large, longkey, k) in cases:
+        if not large:
+            continue
+        i += 1
+        if op == 'alloc_cache':
+            call = ['AllocCache c1 any any jit=%d large=1 argon=%d' % (jit, i % 3)]
+            post = ['InitCache c1 K1', 'CreateVm v1 %s c1 none v2=%d hard=%d secure=0 large=1' % ('CL' if i % 2 else 'IL', i % 2, i % 2), 'Hash v1 I1 key=K1', 'DestroyVm v1', 'ReleaseCache c1']
+            pre = []
+        elif op == 'alloc_dataset':
+            call, post, pre = ['AllocDataset d1 dm1 large=1'], ['ReleaseDataset d1'], []
+        else:
+            pre = ['AllocCache c1 any any jit=%d' % (i % 2), 'InitCache c1 K1']
+            call = ['CreateVm v1 %s c1 none v2=%d hard=%d secure=%d large=1' % ('CL' if jit else 'IL', i % 2, i % 2, (i // 2) % 2 if jit else 0)]
+            post = ['Hash v1 I1 key=K1', 'DestroyVm v1', 'ReleaseCache c1']
+        text = ['HugePool 4096'] + pre + ['FailAt %d' % k] + call + (call if k > 0 else []) + post
+        scens.append({'text': '\n'.join(text) + '\n', 'case': (op, jit, True, k, 'hugepool'), 'ks': 5 if longkey else 0, 'huge': True})
+    for nfail in (4, 6):
+        text = ['HugePool 16', 'AllocCache c1 any any jit=1', 'InitCache c1 K1'] + ['AllocCache c2 any any jit=%d large=1' % (q % 2) for q in range(nfail)] + \
+               ['CreateVm v1 CL c1 none v2=0 hard=1 secure=1 large=1', 'Hash v1 I1 key=K1', 'DestroyVm v1', 'CreateVm v1 IL c1 none v2=1 hard=0 secure=0 large=1', 'Hash v1 I2 key=K1', 'DestroyVm v1', 'ReleaseCache c1']
+        scens.append({'text': '\n'.join(text) + '\n', 'case': ('streak', False, True, nfail, 'hugepool'), 'ks': 0, 'huge': True})
     # ks 5: a 64-byte key, so that copying the key string into the VM is a heap request of its own (small-string buffer: 15 bytes)
     tabs = apiscen.fresh_tables([(0, 0), (5, 0)], ['IL', 'CL', 'IF', 'CF'] if ck.thorough else ['IL', 'CL'], os.path.join(wd, 'fresh'))
     for s in scens:
@@ -97,7 +120,11 @@ def run():
             ev = {}
         ck.violation('alloc:%s:flags=%s:failAt=%s' % (ev.get('e', '?'), ev.get('flags', ev.get('during', '?')), ev.get('failAt', '?')),
                      'call rejected by the allocation model: %s' % rj['line'][:500], {'trace_tail': upto[-5:], 'tlc': rj['tlc']})
-    res2 = vlib.validate_sharded('TraceAlloc', 'TraceAllocModel.cfg', lines, 'c15m', shards=16, timeout=1500, group=group, independent=False)
+    # (the step model is instantiated without huge pages: the emulated-pool scenarios are validated at the property level only)
+    keep = [j for j, sc in enumerate(scens) if not sc.get('huge')]
+    mlines = [l for l, g in zip(lines, group) if g in set(keep)]
+    mgroup = [g for g in group if g in set(keep)]
+    res2 = vlib.validate_sharded('TraceAlloc', 'TraceAllocModel.cfg', mlines, 'c15m', shards=16, timeout=1500, group=mgroup, independent=False)
     ck.cov['parts']['TraceAllocModel'] = {'trace_events_accepted': res2['accepted'], 'trace_events_total': res2['total'], 'model_drift': [x['line'][:200] for x in res2['rejected']][:5]}
     ck.cov['states'] += res2['states']
     ck.cov['transitions'] += res2['transitions']
